@@ -24,7 +24,7 @@ import (
 //	    | s:<hex|->                   string (bytes)
 //	    | S:<len>:<hh>                string of <len> copies of byte <hh>
 //	    | bin:<hex|->/<nbits>/<unit>  interp.Binary
-//	    | A(V;V;…)  | O(key=V;…)      array / object (keys [a-z_0-9]+, sorted)
+//	    | A(V;V;…)  | O(key=V;…)      array / object (keys [a-z_0-9@]*, sorted)
 //	    | dv:<name>=V                 decode value <name> whose JQValueToGoJQ is V (O() for compounds)
 //
 // The Lean driver (Drv/C13.lean) parses exactly this grammar.
@@ -182,10 +182,11 @@ func plainPool() []any {
 		0.5, -1.5, 1e11, 1e308, -1e308, math.NaN(), math.Inf(1), math.Inf(-1),
 		"", "abc", "10", "png", "test.png", ".", "stdin", "\xff\xfe\x00", strings.Repeat("a", 1<<20),
 		[]any{}, []any{1, "a", nil}, []any{[]any{[]any{}}}, []any{255, 256, -1, 0.5},
-		obj(), obj("a", []any{[]any{1}}), obj("a", obj("b", obj("c", nil))),
+		obj(), obj("a", []any{[]any{1}}), obj("a", obj("b", obj("c", nil))), obj("", "x", "@", "y"),
 		// option objects with negative / huge / mistyped members
 		obj("indent", -1),
 		obj("indent", -3, "attribute_prefix", 1),
+		obj("attribute_prefix", "", "comma", "", "prompt", "", "name", "", "encoding", ""),
 		obj("indent", 1000000000000),
 		obj("indent", -4611686018427387905),
 		obj("indent", "x"),
@@ -208,7 +209,8 @@ var nonCore = map[string]bool{
 	"f:-3p-1": true, "f:-inf": true, "s:3130": true, "s:2e": true, "s:746573742e706e67": true, "s:737464696e": true,
 	"O(encoding=s:737464;name=s:6d6435;prompt=s:3e20;timeout=n:-1)": true,
 	"A(n:255;n:256;n:-1;f:1p-1)": true, "O(a=O(b=O(c=null)))": true,
-	"O(attribute_prefix=n:1;indent=n:-3)": true, "O(indent=s:78)": true, "O(indent=f:nan)": true,
+	"O(attribute_prefix=n:1;indent=n:-3)": true, "O(=s:78;@=s:79)": true,
+	"O(attribute_prefix=s:-;comma=s:-;encoding=s:-;name=s:-;prompt=s:-)": true, "O(indent=s:78)": true, "O(indent=f:nan)": true,
 	"O(keep_range=s:796573;pad_to_units=n:-1;unit=n:8)": true,
 	"O(comma=s:-;comment=s:0a;encoding=n:-1;force=null;name=O();remain_group=n:0)": true,
 }
